@@ -471,3 +471,12 @@ M('c03f-first-size-includes-header', 'C03', 'break', RQ,
   '        memcpy(connp->in_buf, data, len);\n        connp->in_buf_size = len;', '        memcpy(connp->in_buf, data, len);\n        connp->in_buf_size = newlen;', 'C03.f')
 M('c03f-size-first-keep', 'C03', 'keep', RQ,
   '        connp->in_buf = NULL;\n        connp->in_buf_size = 0;', '        connp->in_buf_size = 0;\n        connp->in_buf = NULL;')
+
+# ---------------- C07.g
+M('c07g-disabled-keeps-multi-flag', 'C07', 'break', TX,
+  '        tx->response_content_encoding_processing = HTP_COMPRESSION_NONE;\n        ce_multi_comp = 0;', '        tx->response_content_encoding_processing = HTP_COMPRESSION_NONE;', 'C07.g')
+M('c07g-flag-reset-first-keep', 'C07', 'keep', TX,
+  '        tx->response_content_encoding_processing = HTP_COMPRESSION_NONE;\n        ce_multi_comp = 0;', '        ce_multi_comp = 0;\n        tx->response_content_encoding_processing = HTP_COMPRESSION_NONE;')
+M('c07g-single-arm-uses-header-coding', 'C07', 'break', TX,
+  'tx->connp->out_decompressor = htp_gzip_decompressor_create(tx->connp, tx->response_content_encoding_processing);\n            if (tx->connp->out_decompressor == NULL) return HTP_ERROR;',
+  'tx->connp->out_decompressor = htp_gzip_decompressor_create(tx->connp, tx->response_content_encoding);\n            if (tx->connp->out_decompressor == NULL) return HTP_ERROR;', 'C07.g')
